@@ -540,8 +540,8 @@ mut("C01", "escaped-dollar-expands", "expand_env", "a backslash-escaped leading 
 
         if !env_in_token(token) {'''))
 mut("C10", "status-from-wrong-field", "R10-3", "$? prints the exit_on_error flag",
-    (S, 'result.push_str(format!("{}{}", head, sh.previous_status).as_str());',
-     'result.push_str(format!("{}{}", head, sh.exit_on_error as i32).as_str());'))
+    (S, 'format!("{}", sh.previous_status)',
+     'format!("{}", sh.exit_on_error as i32)'))
 
 # ------------------------------------------------------------------ C11
 mut("C11", "no-capture", "capture#", "substitution runs without capture",
@@ -647,38 +647,6 @@ ref("range-loop-to-loop-break", ["C12", "C05"], "while n <= end rewritten as loo
                         None => break,
                     };
                 }
-"""))
-mut("C10", "rewrite-loop-without-fixpoint-test", "R10-5|shell::expand_env|fixpoint",
-    "the loop re-applying expand_one_env loses its `nothing changed` exit: `echo ${HOME` hangs again",
-    (S, """            let expanded = expand_one_env(sh, &_token);
-            if expanded == _token {
-                // nothing expand_one_env can rewrite, e.g. an unterminated `${FOO`
-                break;
-            }
-            _token = expanded;
-""", """            _token = expand_one_env(sh, &_token);
-"""))
-mut("C05", "rewrite-loop-without-fixpoint-test", "R05-2|shell::expand_env|loop",
-    "same edit, seen by the loop rule of C05",
-    (S, """            let expanded = expand_one_env(sh, &_token);
-            if expanded == _token {
-                // nothing expand_one_env can rewrite, e.g. an unterminated `${FOO`
-                break;
-            }
-            _token = expanded;
-""", """            _token = expand_one_env(sh, &_token);
-"""))
-ref("fixpoint-test-as-ne", ["C10", "C05"], "the fixpoint test written as `if expanded != _token { assign } else { break }`",
-    (S, """            if expanded == _token {
-                // nothing expand_one_env can rewrite, e.g. an unterminated `${FOO`
-                break;
-            }
-            _token = expanded;
-""", """            if expanded != _token {
-                _token = expanded;
-            } else {
-                break;
-            }
 """))
 mut("C01", "pipe-lookahead-by-byte", "R01-4|parsers::parser_line::parse_line|char-index-as-byte-offset",
     "the `||` look-ahead of the tokenizer peeks as_bytes()[i + 1] with a character index",
@@ -1636,8 +1604,7 @@ mut("C14", "run-lines-flat-fast-path", "R14-12|scripting::run_lines|always-parse
     match parsers::locust::parse_lines(lines) {"""))
 mut("C10", "whole-word-fast-path-local-first", "R10-4|shell::expand_one_env|precedence",
     "a word that is exactly $NAME is looked up in the shell map first",
-    (S, """        let mut _token = token.clone();
-        while env_in_token(&_token) {""", """        if let Some(name) = token.strip_prefix('$') {
+    (S, """        buff.push((idx, expand_one_env(sh, token)));""", """        if let Some(name) = token.strip_prefix('$') {
             if !name.is_empty() && name.chars().all(|c| c.is_ascii_alphanumeric() || c == '_') {
                 if let Some(v) = sh.get_env(name) {
                     buff.push((idx, v));
@@ -1646,8 +1613,7 @@ mut("C10", "whole-word-fast-path-local-first", "R10-4|shell::expand_one_env|prec
                 }
             }
         }
-        let mut _token = token.clone();
-        while env_in_token(&_token) {"""))
+        buff.push((idx, expand_one_env(sh, token)));"""))
 
 mut("C12", "group-returns-unshortened-rest", "R12-12|shell::brace_getgroup|closing-brace-consumed",
     "the comma-less group hands back the remainder with its closing brace still in it",
@@ -1750,3 +1716,18 @@ mut("C17", "alias-listing-always-single-quotes", "R17-8|builtins::alias::show_al
     "the listing wraps every value in single quotes again",
     ("src/builtins/alias.rs", """        let line = format!("alias {}={}", name, quote_alias_value(&value));""",
      """        let line = format!("alias {}='{}'", name, value);"""))
+
+mut("C10", "rewriter-reapplied-while-gate-holds", "R10-1|shell::expand_env|rescan",
+    "expand_env re-applies the rewriter to its own result again: values are scanned a second time, a self-reference hangs",
+    (S, """        buff.push((idx, expand_one_env(sh, token)));""", """        let mut _token = token.clone();
+        while env_in_token(&_token) {
+            _token = expand_one_env(sh, &_token);
+        }
+        buff.push((idx, _token));"""))
+mut("C05", "rewriter-reapplied-while-gate-holds", "R05-",
+    "same edit, seen from C05 (self-referential value hangs)",
+    (S, """        buff.push((idx, expand_one_env(sh, token)));""", """        let mut _token = token.clone();
+        while env_in_token(&_token) {
+            _token = expand_one_env(sh, &_token);
+        }
+        buff.push((idx, _token));"""))
